@@ -892,6 +892,9 @@ def gen_msgser(tier, seed):
     for n in counts:
         for shift in range(len(INV_TYPES) if n <= 254 else 2 if n <= 2000 or tier == "thorough" else 1):
             cases.append({"m": "getdata", "n": n, "shift": shift, "seed": seed, "heavy": n >= 50000})
+    # every sequence of 1..4 (5 thorough) entries over {2 types} x {2 hashes}: repeated identifiers, the same hash under two types
+    for ln in range(1, 5 if tier == "quick" else 6):
+        cases.append({"m": "getdata-seq", "len": ln, "seed": seed})
     for m in ("getcfilters", "getcfheaders"):
         for ft in FTYPES:
             cases.append({"m": m, "ft": ft, "seed": seed})
@@ -946,6 +949,19 @@ def run_msgser(case):
                     fp = f"C19/getdata/item/type={t:#x}"
                     break
         cmp_ser(res, vc, fp, got, want, (m, n, shift), "GetDataMessage.serialize() differs from count|(type,hash)* layout")
+        return res
+    if m == "getdata-seq":
+        import itertools
+
+        entries = [(t, h) for t in (INV_TYPES[0], INV_TYPES[-1]) for h in (H("inv", seed, 0), H("inv", seed, 1))]
+        for seq in itertools.product(range(len(entries)), repeat=case["len"]):
+            items = [entries[j] for j in seq]
+            want = R.inv_msg(items)
+            msg = net.GetDataMessage()
+            r = attempt(lambda: [msg.add_data(t, h) for t, h in items])
+            got = attempt(msg.serialize) if not rej(r) else r
+            rep = "same-entry-twice" if len(set(items)) < len(items) else "same-hash-two-types" if len({h for _, h in items}) < len(items) else "distinct"
+            cmp_ser(res, vc, f"C19/getdata/sequence/{rep}", got, want, (m, seq), "GetDataMessage.serialize() differs from count|(type,hash)* layout")
         return res
     if m in ("getcfilters", "getcfheaders"):
         cls = cf.GetCFiltersMessage if m == "getcfilters" else cf.GetCFHeadersMessage
@@ -1474,7 +1490,7 @@ RULES = {
     "length 0,1,15,252..256,65535,65536; thorough: + every 3-field deviation over reduced alphabets), default ports, default timestamp/nonce "
     "with time.time and randint replaced by enumerated values; oracle = protocol layout (ports big-endian), self-tested on a captured mainnet "
     "version message. Non-trivial = deviates from the base",
-    "msgser": "getheaders version{6} x count{11 CompactSize boundaries} x start{4} x stop{None+4}; getdata counts {0,1,2,3,252,253,254,2000,65535,65536} (thorough + 50000, 200000) "
+    "msgser": "getdata: every sequence of 1..4 (thorough 5) entries over {2 types} x {2 hashes} (repeated identifiers); getheaders version{6} x count{11 CompactSize boundaries} x start{4} x stop{None+4}; getdata counts {0,1,2,3,252,253,254,2000,65535,65536} (thorough + 50000, 200000) "
     "x type rotations over 8 inventory types; getcfilters/getcfheaders type{5+default} x height{11} x stop{4}; getcfcheckpt; verack/ping/pong/"
     "generic; command names of all 13 classes. Non-trivial = each distinct field tuple",
     "msgparse": "cls.parse(stream) exactly as SimpleNode.wait_for calls it, on reference-built payloads: headers counts {0,1,2,3,252,253,254,2000} (+ non-zero "
